@@ -7,6 +7,8 @@ import (
 	"flag"
 	"fmt"
 	"os"
+
+	"verif/e1lib"
 )
 
 // realMain is the free-running pass: the same scenario tables and oracles, the untranslated harness and
@@ -19,6 +21,7 @@ func realMain() {
 	type out struct {
 		Scenarios int    `json:"scenarios"`
 		Runs      int    `json:"runs"`
+		Timeouts  int    `json:"timeouts"`
 		Violation string `json:"violation,omitempty"`
 		Case      string `json:"case,omitempty"`
 	}
@@ -34,6 +37,10 @@ func realMain() {
 			o.Scenarios++
 			n, v := s.RunReal(*runs)
 			o.Runs += n
+			o.Timeouts = e1lib.Timeouts
+			if o.Timeouts >= 3 {
+				break // the machine is too busy for this auxiliary pass to be useful
+			}
 			if v != "" {
 				o.Violation, o.Case = v, s.Name
 				break
